@@ -17,7 +17,7 @@ import (
 // C11 — DHCP never leases one address to two clients or hands out a reserved address
 // C12 — DHCP replies segregate captured clients and conform to the transaction
 
-const c11Rule = "DHCP message histories (DISCOVER/REQUEST in all five request kinds/DECLINE/RELEASE from 4 client identities - two sharing a chaddr - with requested-address classes offered|current|other client's|free|off-subnet|network|broadcast|router|host|other-subnet|none, same or fresh xid, capture toggles, +1min/+5h ticks, foreign traffic that makes the session track an address), delivered through Parse->ProcessPacket->Notify in an EthMaxSize buffer: every sequence up to a bounded depth over a 12-symbol alphabet on a 14-address pool (exhaustive) plus rapid sequences of 5..80 ops on three prefix configurations and three modes; oracle = wire-level ledger of acknowledged addresses. non-trivial = at least two clients received an OFFER or ACK, or a reserved/foreign address was requested; distinct by hash of the op list"
+const c11Rule = "DHCP message histories (DISCOVER/REQUEST in all five request kinds/DECLINE/RELEASE from 4 client identities - two sharing a chaddr - with requested-address classes offered|current|other client's|free|off-subnet|network|broadcast|router|host|other-subnet|none, same or fresh xid, capture toggles, +1min/+5h ticks, foreign traffic that makes the session track an address), delivered through Parse->ProcessPacket->Notify in an EthMaxSize buffer: every sequence up to a bounded depth over a 12-symbol alphabet on a 14-address pool (exhaustive) plus rapid sequences of 5..80 ops on three prefix configurations and three modes; session purges (silent stations forgotten while their leases go on), a /23 home LAN with the request class twin (same last octet in the other half), and the sub-check recycling (acquire / expire / purge rounds in drawn order); oracle = wire-level ledger of acknowledged addresses. non-trivial = at least two clients received an OFFER or ACK, or a reserved/foreign address was requested; distinct by hash of the op list"
 
 var c11Alphabet = []dOp{
 	{K: "discover", C: 0},
